@@ -1,11 +1,28 @@
 # edited by hand; consumed by lib/mkmanifest.py
-TB = ("Trusted: TLC + CommunityModules JSON reader; regex-syntax/regex (they define what a pattern means); "
-      "the harness' atom projection (self-checked per group); read-only hooks. Bounded: explicit-set languages up to LIMIT words per run.")
-TECH = "TLA+ spec (Lang/Grex) + TLC trace validation (Monitor.tla) of hook/engine traces from the real code"
+TB = ("Trusted: TLC 1.8.0 + CommunityModules JSON reader; regex-syntax 0.8.4 / regex 1.10.6 (they define what a pattern means; a search "
+      "or membership verdict additionally needs the specification's own semantics to agree with the engine's observation); the harness' "
+      "projection of Unicode to atoms (self-checked per group); read-only cfg(grex_verif) hooks. Not unbounded: inputs are the driver "
+      "families of DESIGN.md 4.5, exhaustive only where evidence says exhaustive.")
+TECH = "explicit TLA+ specification (spec/*.tla) checked by TLC: trace validation of the real code (Monitor.tla) + named-deviation model (Algo.tla)"
 
-claim("C01", "Every build of the small-scope and adversarial drivers is replayed as a behaviour of the TLA+ pipeline specification; TLC evaluates membership of every original test case in the language of the parsed output and the engine's observed full match.", TB, TECH, "DESIGN.md 5 C01")
-claim("C02", "TLC decides language EQUALITY (over atoms, i.e. over all scalar values) between the parsed output and the test-case set for every run, per stage.", TB, TECH, "DESIGN.md 5 C02")
-claim("C16", "The Level-1 pipeline invariants (cluster, trie, minimised automaton incl. determinism/minimality over symbols, expression, printed pattern) are evaluated by TLC on the hook snapshots of every run.", TB, TECH, "DESIGN.md 5 C16")
+def C(i, text, ref, note=TB, tech=TECH):
+    claim(i, text, note, tech, ref)
 
-for k in ["C03","C04","C05","C06","C07","C08","C09","C10","C11","C12","C13","C14","C15","C17"]:
-    NOT_YET[k] = "check under construction in this round (planned, see DESIGN.md section 5); not claimed yet"
+C("C01", "Every build is replayed by TLC as a behaviour of the pipeline specification; membership of every original test case in the symbolic language of the parsed output is decided, and the engine's observed anchored full match must agree.", "DESIGN.md 5 C01")
+C("C02", "TLC decides language EQUALITY between the parsed output and the test-case set symbolically over atoms (hence over all 1 112 064 scalar values, all lengths), per stage, exhaustively for all small sets over {a,b}^<=3 / {a,b,c}^<=2.", "DESIGN.md 5 C02")
+C("C03", "The expected language E(T,c) (documented precedence, the regex crate's own class denotations) is built in TLA+ and compared symbolically with the output for random subsets of the six class options on multi-script inputs.", "DESIGN.md 5 C03")
+C("C04", "Fold orbits come from regex-syntax; TLC compares the (?i) output language with the orbit language of the ORIGINAL test cases; every scalar value is swept as a one-character test case (de-duplicated by abstract trace).", "DESIGN.md 5 C04")
+C("C05", "Differential: TLC compares the language of each build with repetition conversion against its twin without, and judges the cluster / trie stages; the known widening deviation is recognised only when the as-built transcription predicts the recorded language exactly.", "DESIGN.md 5 C05")
+C("C06", "All 8 subsets of {verbose, capture, escape} are built per input and compared pairwise by language; flag prefix and group kinds are read from the regex-syntax AST.", "DESIGN.md 5 C06")
+C("C07", "Panics are data: every build outcome of a rotating window over the full 2^15 settings lattice, thresholds incl. u32::MAX, and random builder histories is judged against the Builder specification (documented panics only, documented messages).", "DESIGN.md 5 C07")
+C("C08", "TLC evaluates the anchor facts of the parsed pattern, the body-language twin comparison and the observed leftmost-first search span of every test case (which must agree with the specification's ordered semantics Lang!Find).", "DESIGN.md 5 C08")
+C("C09", "Every scalar value is built alone under the six single class options (all 63 subsets in the thorough tier); classes are the regex crate's, grex's tables are never consulted; abstract traces are de-duplicated and each is judged by TLC.", "DESIGN.md 5 C09")
+C("C10", "Builder histories (setter orders, interleaved builds, clones, list permutations/duplicates) are folded through the Builder object machine by TLC; same set + same settings must give the same string, also across 16 threads and fresh processes.", "DESIGN.md 5 C10")
+C("C11", "Escape tokens of every output are checked against the UTF-16 arithmetic written in TLA+ (EscWellFormed), ASCII-only, and the decoded pattern's language against the unescaped twin; every non-ASCII scalar is swept.", "DESIGN.md 5 C11")
+C("C12", "The built binary is run on generated scenarios (flags x 4 channels x EOL x final newline x error inputs); TLC computes the expected settings (CliMap) and lines (Lines) itself and compares stdout with the library's result for them.", "DESIGN.md 5 C12")
+C("C13", "Counted quantifiers are read from the regex-syntax AST of every output and judged against the thresholds by TLC, also at the cluster stage (every symbol, nested ones included).", "DESIGN.md 5 C13")
+C("C14", "The extension module is built from /repo and driven in CPython; TLC folds each history through the Py object machine and checks out = PyRewrite(library output), no brace escape left, re.compile ok, fullmatch of the test cases.", "DESIGN.md 5 C14")
+C("C15", "Colour on/off twins of random settings: TLC strips SGR sequences with the scanner of Grex!StripSGR and compares code point sequences.", "DESIGN.md 5 C15")
+C("C16", "Hook snapshots of every stage are judged by TLC: cluster, trie, minimised automaton (language, determinism and minimality over symbols), expression, final expression, printed pattern; the first diverging stage is reported.", "DESIGN.md 5 C16")
+C("C17", "REDUCED CLAIM: src/wasm.rs is compiled natively (cfg grex_verif_wasm) against a stand-in for wasm_bindgen and driven through mutate-and-copy histories judged by the Wasm object machine; wasm32 code generation, wasm-bindgen glue and the JS host are not reached.", "DESIGN.md 5 C17",
+  note=TB + " For C17 additionally the 40-line stand-in JsValue (harness/mock) is trusted to behave like wasm_bindgen's for strings / non-strings.")
